@@ -152,6 +152,13 @@ impl Compound {
         meter == Some(1) && second == Some(-2)
     }
 
+    /// Test if the given state belongs to the only unit of this compound and
+    /// has a power of one. Scales with a zero-point offset (like `°C`) can
+    /// only be converted in that position, `J/°C` is a per-degree interval.
+    fn is_alone(&self, state: &State) -> bool {
+        self.names.len() == 1 && state.power == 1
+    }
+
     /// Calculate the factor for coercing one unit to another.
     pub(crate) fn factor(&self, other: &Self, value: &mut Rational) -> Result<bool, CompoundError> {
         if self.is_empty() || other.is_empty() {
@@ -180,12 +187,20 @@ impl Compound {
             *value *= Rational::new(10u32, 1u32).pow(state.prefix * state.power);
 
             if let Some(conversion) = name.conversion() {
+                if conversion.is_affine() && !other.is_alone(state) {
+                    return Err(CompoundError);
+                }
+
                 apply_conversion(state.power, value, conversion)?;
             }
         }
 
         for (name, state) in &self.names {
             if let Some(conversion) = name.conversion() {
+                if conversion.is_affine() && !self.is_alone(state) {
+                    return Err(CompoundError);
+                }
+
                 apply_conversion(-state.power, value, conversion)?;
             }
 
